@@ -322,6 +322,11 @@ func (c *Ctx) tkRun(kind, part string) *tkVerdict {
 				}
 				r := h.tokenize(s)
 				show := fmt.Sprintf("%s tokenizer on %q", kind, s)
+				for _, rn := range []string{"TOK.lossless", "TOK.position", "TOK.options"} {
+					if i%97 == 0 || i >= nBounded {
+						noteSample(rn+"/"+kind, fmt.Sprintf("%q", s))
+					}
+				}
 				switch r.kind {
 				case "opaque":
 					v.note("lossless", "", show+": "+r.why)
@@ -383,6 +388,7 @@ func (c *Ctx) tkRun(kind, part string) *tkVerdict {
 						want = renderToks(r2.toks)
 						fresh[s2] = want
 					}
+					noteSample("TOK.reuse/"+kind, fmt.Sprintf("%q then %q", s1, s2))
 					if r1 := h.tokenize(s1); r1.kind != "ok" {
 						continue
 					}
